@@ -113,6 +113,9 @@ namespace vh
     friend bool
     operator== (const StreamIt& a, const StreamIt& b)
     {
+      // once a violation has been recorded the range reads as exhausted, so that a library
+      // loop driven by a misused iterator terminates and the failure can be reported
+      if (failure ().set) return true;
       if (a.m_end && b.m_end) return true;
       if (a.m_end) return b.m_st->cursor >= b.m_st->n;
       if (b.m_end) return a.m_st->cursor >= a.m_st->n;
@@ -204,8 +207,8 @@ namespace vh
     difference_type operator- (const CheckedIt& o) const { return m_pos - o.m_pos; }
     T& operator[] (difference_type d) const { return *(*this + d); }
 
-    friend bool operator== (const CheckedIt& a, const CheckedIt& b) { return a.m_pos == b.m_pos; }
-    friend bool operator!= (const CheckedIt& a, const CheckedIt& b) { return a.m_pos != b.m_pos; }
+    friend bool operator== (const CheckedIt& a, const CheckedIt& b) { return failure ().set || a.m_pos == b.m_pos; }
+    friend bool operator!= (const CheckedIt& a, const CheckedIt& b) { return ! (a == b); }
     friend bool operator<  (const CheckedIt& a, const CheckedIt& b) { return a.m_pos <  b.m_pos; }
     friend bool operator>  (const CheckedIt& a, const CheckedIt& b) { return a.m_pos >  b.m_pos; }
     friend bool operator<= (const CheckedIt& a, const CheckedIt& b) { return a.m_pos <= b.m_pos; }
